@@ -8,6 +8,13 @@ classes / dispatchers and into the real scheduler hand-off; exhaustive
 exploration of the interleavings of the real _dispatch parent and child;
 seeded random schedules; the dispatcher catalogue; validation of every
 recorded trace by the RaptorTrace monitor.
+
+C08 (the part which lives in the scheduler's raptor routing): RaptorCache model
+of the tasks kept for a raptor master which has not registered yet - cancel
+requests over the cache, relay at registration - checked exhaustively, its
+behaviours and an enumeration of cancel requests replayed into the real
+control_cb / _schedule_incoming, clauses C08.*.  The module serves both
+properties; only clauses whose prefix equals chk.pid are reported.
 '''
 
 import os
@@ -262,11 +269,124 @@ def catalogue():
     return out
 
 
+CLS_CACHE = 'cancel of tasks kept for a raptor master which has not registered yet'
+CACHE_INVARIANTS = ['TypeOK', 'InvNamedNeverRelayed', 'InvBystanderRelayedOnce']
+CACHE_DEVS  = ['DevSkipNeighbour', 'DevCancelKeepsCached']
+M0, M1      = R.MASTER_UID, 'master.0001'
+CACHE_TASKS = {'t1': M0, 't2': M0, 't3': M0, 't4': M0, 't5': M1}
+
+
+def cache_files(tasks, devs=(), maxc=1, invariants=None):
+    ids, ms_ = sorted(tasks), sorted(set(tasks.values()))
+    mod = ('---- MODULE MCC ----\nEXTENDS RaptorCache\n'
+           'MCTasks == {%s}\nMCMasters == {%s}\n'
+           % (', '.join('"%s"' % t for t in ids), ', '.join('"%s"' % m for m in ms_))
+           + 'MCRid == [t \\in MCTasks |-> CASE %s]\n====\n'
+           % ' [] '.join('t = "%s" -> "%s"' % (t, tasks[t]) for t in ids))
+    cfg = ('CONSTANTS\n Tasks <- MCTasks\n Masters <- MCMasters\n Rid <- MCRid\n'
+           ' MaxCancel = %d\n' % maxc)
+    for d in CACHE_DEVS:
+        cfg += ' %s = %s\n' % (d, 'TRUE' if d in devs else 'FALSE')
+    cfg += 'SPECIFICATION Spec\nCHECK_DEADLOCK FALSE\n'
+    for i in (CACHE_INVARIANTS if invariants is None else invariants):
+        cfg += 'INVARIANT %s\n' % i
+    return {'MCC.tla': mod, 'MCC.cfg': cfg}
+
+
+def cache_script_from_behaviour(path):
+    script = []
+    for m in _ACT.finditer(open(path).read()):
+        name, ids = m.group(1), re.findall(r'"([\w.]+)"', m.group(2) or '')
+        if   name == 'Arrive'  : script.append(('arrive', [ids[0]]))
+        elif name == 'Cancel'  : script.append(('rcancel', sorted(ids)))
+        elif name == 'Register': script.append(('register', ids[0]))
+    return script
+
+
+def cache_info(tasks):
+    return {t: {'rid': m, 'seen': False, 'worker': False} for t, m in tasks.items()}
+
+
+def run_cache_script(info, script):
+    # every action is applied when the scheduler loop is idle: what arrived is
+    # kept / forwarded before the next action, as in the model
+    return R.RoutingRig(LAY, info, script=[(10 ** 6 + i, a) for i, a in enumerate(script)]).run()
+
+
+def run_c08(chk, tier, seed):
+    rng   = random.Random(seed * 7919 + 8)
+    quick = tier == 'quick'
+    for maxc in ((1,) if quick else (1, 2)):
+        res = tlc.run('Raptor', 'MCC', 'MCC.cfg', workers=4, timeout=600,
+                      extra_files=cache_files(CACHE_TASKS, maxc=maxc))
+        chk.add_tlc(res, 'exhaustive:cache:%d' % maxc)
+        if not res.ok:
+            raise Machinery('design model RaptorCache violates %s (intended design must hold):\n%s'
+                            % (res.violated, res.trace[:3000]))
+    chk.exhaustive = True
+    if not quick:
+        for dev in CACHE_DEVS:
+            res = tlc.run('Raptor', 'MCC', 'MCC.cfg', workers=4, timeout=600,
+                          extra_files=cache_files(CACHE_TASKS, devs=[dev]))
+            chk.add_tlc(res, 'deviation:cache:' + dev)
+            if res.ok or res.violated not in ('InvNamedNeverRelayed', 'InvBystanderRelayedOnce'):
+                raise Machinery('deviation %s not detected by the cache model (got %s)'
+                                % (dev, res.violated))
+            chk.notes.append('deviation %s breaks %s in the cache model' % (dev, res.violated))
+
+    traces, inputs = [], []
+
+    def add(inp):
+        traces.append(run_input(inp))
+        inputs.append(inp)
+
+    # TLC behaviours -> scripts for the real scheduler
+    info = cache_info(CACHE_TASKS)
+    dump = tlc.scratch('rpsim_')
+    try:
+        res = tlc.run('Raptor', 'MCC', 'MCC.cfg', workers=1, timeout=300,
+                      simulate='num=%d' % (40 if quick else 400), depth=12,
+                      seed=rng.randrange(10 ** 6), dump_dir=dump,
+                      extra_files=cache_files(CACHE_TASKS, maxc=2, invariants=['TypeOK']))
+        chk.add_tlc(res, 'simulate:cache')
+        for f in sorted(glob.glob(os.path.join(dump, 'tr_*'))):
+            add({'family': 'cache', 'kind': 'cache-script', 'info': info,
+                 'script': cache_script_from_behaviour(f)})
+    finally:
+        shutil.rmtree(dump, ignore_errors=True)
+    # every cancel request of 1 .. 3 uids over four kept tasks and one which is not
+    # kept (it arrives later): adjacent, non-adjacent, all, none of the kept ones
+    import itertools
+    tasks = {t: M0 for t in ('t1', 't2', 't3', 't4', 't5')}
+    info  = cache_info(tasks)
+    for bulk in (True, False):
+        for n in (1, 2, 3):
+            for S in itertools.combinations(sorted(tasks), n):
+                head = [('arrive', ['t1', 't2', 't3', 't4'])] if bulk else \
+                       [('arrive', [t]) for t in ('t1', 't2', 't3', 't4')]
+                add({'family': 'cache', 'kind': 'cache-script', 'info': info,
+                     'script': head + [('rcancel', list(S)), ('register', M0), ('arrive', ['t5'])]})
+    # seeded random environments: cancel requests at any point of the scheduler loop
+    for i in range(60 if quick else 1200):
+        add({'family': 'cache', 'kind': 'sched-random', 'seed': rng.randrange(10 ** 9),
+             'info': random_sched(rng), 'p_env': rng.choice([0.2, 0.35, 0.5]), 'max_cancel': 2})
+    validate(chk, traces, inputs, 'real scheduler trace (raptor cache)')
+    chk.sample({'kind': inputs[0]['kind'], 'script': inputs[0].get('script'),
+                'events': [{k: v for k, v in e.items() if k not in ('cores', 'gpus', 'npool')}
+                           for e in traces[0]['events'][:14]]})
+    chk.assumptions += [
+        'the scheduler process handles control messages one at a time (control_cb under '
+        '_raptor_lock); a cancel request interleaves with _schedule_incoming only between its '
+        'queue reads and at the hand-over of a bulk (schedule points of sched_rig)',
+        'only the part of C08 which lives in the raptor cache of the agent scheduler is judged here']
+
+
 # ------------------------------------------------------------------------------
 def classify(inp, clause):
     if clause == 'C20.RestoredProcEnv':
         return CLS_ENV
     fam = inp['family']
+    if fam == 'cache' or clause.startswith('C08.'): return CLS_CACHE
     if fam == 'sched'  : return CLS_SCHED
     if fam == 'mpi'    : return CLS_MPI
     if fam == 'mpi-sig': return CLS_MPISIG
@@ -290,7 +410,10 @@ def run_input(inp):
     if k == 'sched-script':
         return run_sched_script(inp['info'], [(a[0], a[1]) for a in inp['script']])
     if k == 'sched-random':
-        return R.RoutingRig(LAY, inp['info'], seed=inp['seed'], p_env=inp['p_env']).run()
+        return R.RoutingRig(LAY, inp['info'], seed=inp['seed'], p_env=inp['p_env'],
+                            max_cancel=inp.get('max_cancel', 0)).run()
+    if k == 'cache-script':
+        return run_cache_script(inp['info'], [(a[0], a[1]) for a in inp['script']])
     raise ValueError(k)
 
 
@@ -340,6 +463,8 @@ def explore_dispatch(add):
 
 
 def run(chk, tier, seed):
+    if chk.pid == 'C08':
+        return run_c08(chk, tier, seed)
     rng   = random.Random(seed * 7919 + 20)
     quick = tier == 'quick'
 
@@ -493,7 +618,8 @@ def run(chk, tier, seed):
              'reqs': random_reqs(rng, rng.randint(2, 6), 'base')})
     for i in range(80 if quick else 1000):
         add({'family': 'sched', 'kind': 'sched-random', 'seed': rng.randrange(10 ** 9),
-             'info': random_sched(rng), 'p_env': rng.choice([0.2, 0.35, 0.5])})
+             'info': random_sched(rng), 'p_env': rng.choice([0.2, 0.35, 0.5]),
+             'max_cancel': rng.choice([0, 0, 1])})
     for i in range(60 if quick else 800):
         add({'family': 'mpi', 'kind': 'mpi-random', 'seed': rng.randrange(10 ** 9),
              'reqs': random_mpi(rng, False)})
